@@ -52,7 +52,7 @@ DTC_DICT_SF = iso.DTC_LIST_SF
 def shards(tier: str, seed: int) -> list[dict[str, Any]]:
     if tier == "quick":
         return [{"mode": "hist", "base": f"q{seed}-{i}", "n": 260} for i in range(12)] + [{"mode": "conc", "base": f"qc{seed}-{i}", "n": 60} for i in range(2)]
-    return [{"mode": "hist", "base": f"t{seed}-{i}", "n": 2000} for i in range(14)] + [{"mode": "conc", "base": f"tc{seed}-{i}", "n": 1000} for i in range(2)]
+    return [{"mode": "hist", "base": f"t{seed}-{i}", "n": 3000} for i in range(14)] + [{"mode": "conc", "base": f"tc{seed}-{i}", "n": 1000} for i in range(2)]
 
 
 def required_reach(tier: str) -> dict[str, int]:
